@@ -41,7 +41,31 @@ for d in sorted(glob.glob(f'{V}/seeded/*/')):
         summ = summ[:227] + '…'
     note = meta.get('caught_after') or ''
     rows.append(f"| {name} | {meta.get('property')} | {summ} | {'; '.join(cells) or 'not run'} | {note} |")
-head13 = ('Produced by fresh sub-agents that saw only the property text and a scratch worktree of /repo (nothing from /verif); each '
+import collections
+_tot = collections.Counter()
+for _d in sorted(glob.glob(f'{V}/seeded/*/')):
+    try:
+        _m = json.load(open(_d + 'meta.json')); _r = json.load(open(_d + 'result.json'))
+    except Exception:
+        continue
+    _c = _r.get('checks', {})
+    _tot['n'] += 1
+    if any(v['caught'] and v.get('with_failing_input') for v in _c.values()):
+        _tot['input'] += 1
+        _own = _m.get('property')
+        if not (_own in _c and _c[_own]['caught'] and _c[_own].get('with_failing_input')):
+            _tot['sibling'] += 1
+    if _m.get('caught_after'):
+        _tot['after'] += 1
+summary13 = (f"Totals at the final commit (every change re-confirmed serially by the documented route — `git -C /repo apply`, run the "
+             f"quick check, `git -C /repo checkout -- .` — at /repo HEAD): {_tot['n']} seeded changes in three rounds (4 + 3 + 3 per "
+             f"property; three were dropped when a later repo fix neutralised them), {_tot['input']} caught with a concrete failing "
+             f"input, {_tot['sibling']} of them by a sibling property's check rather than the check of the property they were seeded "
+             f"under (a criteria-parser cache seeded under C01/C05/C12 is C15's subject; a thread-shared array context under C13 is "
+             f"C07's; a reset-walk change under C05 is caught by C04). {_tot['after']} were MISSED on first contact and are caught "
+             f"only after the generator/oracles were widened in the direction they pointed to (first-contact miss rate: round 1 "
+             f"about one third, round 2 about one sixth, round 3 — the harder kinds — about one third).\n\n")
+head13 = summary13 + ('Produced by fresh sub-agents that saw only the property text and a scratch worktree of /repo (nothing from /verif); each '
           'keeps the 2 988 tests green and comes with a demo that fails only with the change. "caught (input)" = the check exits 1 '
           'with a VIOLATION line whose replay holds a concrete failing input. The last column says what had to be strengthened '
           'when the first run missed it.\n\n| id | property | change | quick check result | strengthened |\n|---|---|---|---|---|\n')
